@@ -138,10 +138,13 @@ func (gm *glyphMap) encode(r rune) string {
 func (gm *glyphMap) getEncode() map[rune]string {
 	gm.Lock()
 	defer gm.Unlock()
+	hook("acquire", "aglfn")
 
 	if gm.runeToName != nil {
+		hook("read", "aglfn")
 		return gm.runeToName
 	}
+	hook("build", "aglfn")
 
 	r2n := make(map[rune]string)
 	fd, _ := glyphData.Open("agl-aglfn/aglfn.txt")
@@ -162,15 +165,19 @@ func (gm *glyphMap) getEncode() map[rune]string {
 	}
 
 	gm.runeToName = r2n
+	hook("built", "aglfn")
+	hook("read", "aglfn")
 	return r2n
 }
 
 func (gm *glyphMap) lookup(file, name string) (rune, bool) {
 	gm.Lock()
 	defer gm.Unlock()
+	hook("acquire", file)
 
 	fMap := gm.getFile(file)
 	c, ok := fMap[name]
+	hook("read", file)
 	return c, ok
 }
 
@@ -180,6 +187,7 @@ func (gm *glyphMap) getFile(file string) map[string]rune {
 		return fMap
 	}
 	fMap = make(map[string]rune)
+	hook("build", file)
 
 	fd, err := glyphData.Open("agl-aglfn/" + file + ".txt")
 	if err != nil {
@@ -211,6 +219,7 @@ func (gm *glyphMap) getFile(file string) map[string]rune {
 	}
 
 	gm.nameToRune[file] = fMap
+	hook("built", file)
 	return fMap
 }
 
